@@ -104,6 +104,12 @@ type c19Case struct {
 	MetaLen   int               `json:"metadata_len,omitempty"`
 	PayAddr   bool              `json:"payment_addr,omitempty"`
 	Prob      float64           `json:"hop_probability"`
+
+	// Path-finding configuration (PathFindingConfig): false = lnd's defaults
+	// (MinProbability 0.01, AttemptCost 100 sat, AttemptCostPPM 1000), true = the
+	// struct's zero value for that part (routerrpc.minrtprob=0 / attemptcost=0).
+	MinProb0     bool `json:"min_probability_zero,omitempty"`
+	AttemptCost0 bool `json:"attempt_cost_zero,omitempty"`
 }
 
 const (
@@ -301,6 +307,29 @@ var (
 	}
 )
 
+func (c *c19Case) pfCfg() *PathFindingConfig {
+	cfg := *c19PFCfg
+	if c.MinProb0 {
+		cfg.MinProbability = 0
+	}
+	if c.AttemptCost0 {
+		cfg.AttemptCost, cfg.AttemptCostPPM = 0, 0
+	}
+	return &cfg
+}
+
+func (c *c19Case) cfgName() string {
+	switch {
+	case c.MinProb0 && c.AttemptCost0:
+		return "minprob0+attemptcost0"
+	case c.MinProb0:
+		return "minprob0"
+	case c.AttemptCost0:
+		return "attemptcost0"
+	}
+	return "default"
+}
+
 func c19Cipher(n, salt int) []byte {
 	b := make([]byte, n)
 	for i := range b {
@@ -429,7 +458,7 @@ func c19Run(c *c19Case) (res c19Result) {
 	finalHtlcExpiry := int32(c.Height) + int32(req.FinalExpiry)
 	path, p, err := findPath(
 		&graphParams{additionalEdges: req.RouteHints, bandwidthHints: &c19BW{m: c.BW}, graph: newC19Graph(c)},
-		req.Restrictions, c19PFCfg, c19Keys[c.Self], req.Source, req.Target, req.Amount,
+		req.Restrictions, c.pfCfg(), c19Keys[c.Self], req.Source, req.Target, req.Amount,
 		req.TimePreference, finalHtlcExpiry,
 	)
 	switch {
